@@ -3,8 +3,8 @@ CONSTANTS
   MaxFrames = 6
   MaxThreads = 1
   MaxOps = 4
-  EmitOps = {"checkpoint","cut_points","status","auto","schedule"}
-  PathOps = {"message","checkpoint","auto","schedule","run_ended"}
+  EmitOps = {"compile"}
+  PathOps = {"message","run_ended","checkpoint","side_effects"}
 VIEW View
 INVARIANTS Emit CutPointsAreStrideMessages AutoIdempotent ReadOnlyQuiet LineageSound BundleSound
 CHECK_DEADLOCK FALSE
